@@ -59,7 +59,12 @@ func main() {
 		i, _ := strconv.Atoi(os.Args[4])
 		n, _ := strconv.Atoi(os.Args[5])
 		ctx := core.RunShard(ch, os.Args[3], seed(), i, n, "", os.Getenv("VERIF_UNIT"))
-		js, _ := json.Marshal(ctx)
+		ctx.Notes, _ = core.JSONSafe(ctx.Notes).(map[string]any)
+		js, err := json.Marshal(ctx)
+		if err != nil {
+			fmt.Fprintln(os.Stderr, "worker: cannot encode result:", err)
+			os.Exit(2)
+		}
 		if err := os.WriteFile(os.Args[6], js, 0o644); err != nil {
 			fmt.Fprintln(os.Stderr, err)
 			os.Exit(2)
